@@ -35,8 +35,8 @@ import (
 	clicmd "github.com/ajitpratap0/GoSQLX/cmd/gosqlx/cmd"
 	"github.com/ajitpratap0/GoSQLX/pkg/gosqlx"
 	"github.com/ajitpratap0/GoSQLX/pkg/models"
-	"github.com/ajitpratap0/GoSQLX/pkg/sql/keywords"
 	"github.com/ajitpratap0/GoSQLX/pkg/sql/ast"
+	"github.com/ajitpratap0/GoSQLX/pkg/sql/keywords"
 	"github.com/ajitpratap0/GoSQLX/pkg/sql/parser"
 	"github.com/ajitpratap0/GoSQLX/pkg/sql/security"
 	"github.com/ajitpratap0/GoSQLX/pkg/sql/token"
@@ -53,8 +53,11 @@ import (
 )
 
 type item struct {
-	Kind   string   `json:"k"` // "text" | "slice"
-	Text   string   `json:"t,omitempty"`
+	Kind string `json:"k"` // "text" | "slice"
+	Text string `json:"-"`
+	// the text travels as bytes (base64 in JSON): a JSON string would turn every byte that is not valid UTF-8
+	// into U+FFFD on its way to the child
+	Raw    []byte   `json:"t,omitempty"`
 	Kinds  []string `json:"s,omitempty"` // slice: abstract kinds (TokenStream) or "@<n>:<sql>" = first n real tokens of sql
 	Origin string   `json:"o"`
 }
@@ -291,6 +294,7 @@ func child(workFile string, shard, shards, from int, out string) {
 		if err := json.Unmarshal(sc.Bytes(), &it); err != nil {
 			core.Fatalf("bad work item %d: %v", idx, err)
 		}
+		it.Text = string(it.Raw)
 		list := tops
 		if it.Kind == "slice" {
 			list = sops
@@ -390,6 +394,7 @@ func main() {
 	{
 		var b bytes.Buffer
 		for _, it := range items {
+			it.Raw = []byte(it.Text)
 			j, _ := json.Marshal(it)
 			b.Write(j)
 			b.WriteByte('\n')
@@ -632,7 +637,7 @@ func build(tier string) []item {
 		}
 	}
 	// texts: long inputs over narrow alphabets (quoting, comment and dollar-tag machinery needs length, not breadth)
-	for _, cfg := range []string{"Lexer_dol3_10.cfg", "Lexer_sq2_11.cfg", "Lexer_dq3_8.cfg", "Lexer_com3_9.cfg", "Lexer_blk3_9.cfg", "Lexer_bs3_8.cfg", "Lexer_bt3_8.cfg"} {
+	for _, cfg := range []string{"Lexer_dol3_10.cfg", "Lexer_sq2_11.cfg", "Lexer_dq3_8.cfg", "Lexer_com3_9.cfg", "Lexer_blk3_9.cfg", "Lexer_bs3_8.cfg", "Lexer_bt3_8.cfg", "Lexer_inv5_7.cfg"} {
 		r := core.MustTLC(core.TLCOpts{Spec: "Lexer", Cfg: cfg, Timeout: 30 * time.Minute})
 		run.AddTLC(r.Stat("reference lexer over a narrow alphabet to greater length (source of byte-class sequences)"))
 		for li, line := range r.Cases {
@@ -640,10 +645,16 @@ func build(tier string) []item {
 			if json.Unmarshal([]byte(line), &cs) != nil {
 				continue
 			}
-			t := lexconc.Concretise(cs.Inp, li%2).S
-			if !seenText[t] {
-				seenText[t] = true
-				add(item{Kind: "text", Text: t, Origin: "Lexer.tla-narrow"})
+			vs := []int{li % 2}
+			if cfg == "Lexer_inv5_7.cfg" {
+				vs = []int{0, 1, 5} // the character no token starts with spelled as an invalid byte, a control character, NUL
+			}
+			for _, v := range vs {
+				t := lexconc.Concretise(cs.Inp, v).S
+				if !seenText[t] {
+					seenText[t] = true
+					add(item{Kind: "text", Text: t, Origin: "Lexer.tla-narrow"})
+				}
 			}
 		}
 	}
